@@ -47,7 +47,7 @@ pub(crate) fn ti_one_second() -> TimeInterval {
 // @tier quick
 // @variant lists2
 // @timeout 1200
-// @mem 10
+// @mem 4
 // @functions ForeignMasterList::new, ForeignMasterList::register_announce_message, ForeignMasterList::is_announce_message_qualified, ForeignMaster::new, ForeignMasterList::get_foreign_master
 // @bounds stand-alone list (capacities scaled 8 -> 2), first registration of a fully symbolic Announce with any age, then the qualification verdict for a second fully symbolic Announce
 // @note the C06 fragment that is decidable: own clock identity and stepsRemoved >= 255 never enter the list; a newer sequence id (window of 2^15, across the 65535 -> 0 wrap) is required from a known master. Threshold, ageing and expiry (list walks) are outside (C06 is not applicable).
@@ -73,50 +73,6 @@ fn c07_foreign_master_registration() {
     assert!(got == want, "qualification predicate differs from: not own clock, stepsRemoved < 255, newer sequence id");
     kani::cover!(q1 && got && src2 == m1.header.source_port_identity && m2.header.sequence_id < m1.header.sequence_id, "sequence wrap-around accepted");
     kani::cover!(q1 && !got && src2 == m1.header.source_port_identity && src2.clock_identity != own.clock_identity && m2.steps_removed < 255, "stale sequence id rejected");
-    core::mem::forget(l);
-}
-
-// @harness c03_foreign_master_list_ageing
-// @props C03:thorough
-// @tier thorough
-// @role best_effort
-// @variant lists2
-// @timeout 2700
-// @mem 34
-// @functions ForeignMasterList::register_announce_message, ForeignMasterList::step_age, ForeignMaster::step_age, ForeignMaster::purge_old_messages, ForeignMasterList::take_qualified_announce_messages
-// @bounds stand-alone list with capacities scaled 8 -> 2: two different qualified masters registered with symbolic ages, one ageing step of symbolic length, then the qualified-message take; announce interval 1 s
-// @note list-level code is outside (C06 not applicable): this harness ran out of memory at 12 GB even at capacity 2 x 2; it is kept as a best-effort attempt with a 34 GB cap
-#[kani::proof]
-#[kani::unwind(6)]
-fn c03_foreign_master_list_ageing() {
-    let own = any_port_identity();
-    let mut l = ForeignMasterList::new(ti_one_second(), own);
-    let m1 = any_announce();
-    let m2 = any_announce();
-    let q = |m: &AnnounceMessage| m.header.source_port_identity.clock_identity != own.clock_identity && m.steps_removed < 255;
-    kani::assume(q(&m1) && q(&m2) && m1.header.source_port_identity != m2.header.source_port_identity);
-    let a1 = any_duration_bits(64);
-    let a2 = any_duration_bits(64);
-    kani::assume(a1 >= Duration::ZERO && a2 >= Duration::ZERO);
-    l.register_announce_message(&m1.header, &m1, a1);
-    l.register_announce_message(&m2.header, &m2, a2);
-    assert!(list_len(&l) == 2);
-    let step = any_duration_bits(64);
-    kani::assume(step >= Duration::ZERO);
-    l.step_age(step);
-    let window = Duration::from_secs(4);
-    let keep1 = a1 + step < window;
-    let keep2 = a2 + step < window;
-    assert!(list_len(&l) == (keep1 as usize) + (keep2 as usize), "a master must be dropped exactly when its newest Announce is older than four announce intervals");
-    if keep1 {
-        assert!(l.foreign_masters[0].foreign_master_port_identity == m1.header.source_port_identity);
-    }
-    // a single message never qualifies a master
-    let mut it = l.take_qualified_announce_messages();
-    assert!(it.next().is_none(), "a master qualified on the strength of a single Announce");
-    kani::cover!(!keep1 && keep2, "older master expires while the newer stays");
-    kani::cover!(keep1 && !keep2, "second master expires first");
-    core::mem::forget(it);
     core::mem::forget(l);
 }
 
